@@ -42,7 +42,11 @@ def _ref_for(rng, k, includer_url):
         # case-sensitive), so this is not a recursive inclusion
         return base.swapcase()
     stem = rng.choice(["frag%d"] * 12 + ["fr[%d]", "fr*%d", "f[a-z]%d",
-                                         "fr%d$$x", "$$fr%d"])
+                                         "fr%d$$x", "$$fr%d",
+                                         # a backslash is a character of a
+                                         # name, not a separator
+                                         "fr\\%d", "bs\\frag%d",
+                                         "..\\fr%d"])
     name = (stem + "%s") % (k, rng.choice([".conf"] * 9 + [
         ".conf.gz", ".gz", ".bz2", ".zip", ".xml", ""]))
     r = rng.random()
@@ -116,6 +120,11 @@ def cut(rng, lines, top_url=None, ncuts=None, max_depth=3, decoys=True):
                          urllib.parse.urljoin(url, "../x.conf"),
                          urllib.parse.urljoin(url, "deeper/x.conf")):
                 d = urllib.parse.urljoin(base, ref.replace("$$", "$"))
+                if d != target:
+                    uni["decoys"][d] = DECOY_TEXT
+            if "\\" in ref:
+                d = urllib.parse.urljoin(url, ref.replace(
+                    "$$", "$").replace("\\", "/"))
                 if d != target:
                     uni["decoys"][d] = DECOY_TEXT
     for d in list(uni["decoys"]):
